@@ -154,6 +154,15 @@ def _raises(fn):
     return [name for _, name in out]
 
 
+def _rule_names() -> list[str]:
+    """rule names in the order of the model's `Kind` constructors (= first appearance in cel.lark)"""
+    try:
+        from gen_cel import KINDS
+        return list(KINDS)
+    except Exception:
+        return []
+
+
 def extractor_dispatch():
     path = SRC / "cel" / "structure_extractor.py"
     tree = ast.parse(path.read_text())
@@ -229,6 +238,16 @@ def extractor_dispatch():
             elif v != var and (fname, v) not in SETS:
                 ok = False
                 problems.append(f"{fname}: comparison on unexpected variable {v}.data")
+    # the visiting loop may dispatch by comparison or through a table: every rule name it mentions counts
+    rule_names = _rule_names()
+    for n in ast.walk(main):
+        if isinstance(n, ast.Constant) and isinstance(n.value, str) and n.value in rule_names \
+                and n.value not in sets["top"]:
+            sets["top"].append(n.value)
+    # only membership matters to the code: list every set in the grammar's rule order
+    order = {k: i for i, k in enumerate(rule_names)}
+    for field in sets:
+        sets[field].sort(key=lambda k: order.get(k, len(order)))
     return {"sets": sets, "falls": falls, "caught": sorted(caught), "sha": _sha(path), "file": str(path)}, ok, problems
 
 
